@@ -2,6 +2,9 @@ import DaskModel.Model.Chunks
 import DaskModel.Lemmas.ChunksNormalize
 import DaskModel.Lemmas.ChunksPlanner
 import DaskModel.Lemmas.ChunksRechunk
+import DaskModel.Lemmas.ChunksPlanLemmas
+import DaskModel.Lemmas.ChunksPlanStages
+import DaskModel.Lemmas.ChunksLocate
 /-!
 # C23 — chunk normalisation and rechunking are exact (theorems)
 
@@ -104,33 +107,7 @@ example : normalize (.seq [.tup [3, 0, 2]]) [5] none none = .ok [[3, 0, 2]] := b
 
 /-- `divide_to_width`: the chunks still add up, none exceeds `max_width`, and positive chunks stay positive. -/
 theorem divide_to_width_spec {cs : List Nat} {w : Nat} {r : List Nat} (h : divideToWidth cs w = some r) :
-    sum r = sum cs ∧ (∀ x ∈ r, x ≤ w) ∧ ((∀ c ∈ cs, 0 < c) → ∀ x ∈ r, 0 < x) := by
-  unfold divideToWidth at h
-  split at h
-  · cases h
-  · rename_i hw
-    have hw : 0 < w := by omega
-    injection h with h; subst h
-    induction cs with
-    | nil => simp [sum]
-    | cons c cs ih =>
-      simp only [List.flatMap_cons, sum_append, sum_cons]
-      obtain ⟨i1, i2, i3⟩ := ih
-      refine ⟨?_, ?_, ?_⟩
-      · rw [i1]
-        rcases Nat.eq_zero_or_pos c with hc | hc
-        · subst hc; simp [ceilDiv, sum]
-          have : (w - 1) / w = 0 := Nat.div_eq_of_lt (by omega)
-          simp [this, divideOne]
-        · rw [divideOne_sum _ _ (ceilDiv_pos c w hc hw)]
-      · intro x hx
-        rcases List.mem_append.1 hx with hx | hx
-        · exact divideOne_le _ c w (ceilDiv_mul_ge c w hw) x hx
-        · exact i2 x hx
-      · intro hpos x hx
-        rcases List.mem_append.1 hx with hx | hx
-        · exact divideOne_pos _ c (ceilDiv_le_self c w hw) x hx
-        · exact i3 (fun c hc => hpos c (List.mem_cons_of_mem _ hc)) x hx
+    sum r = sum cs ∧ (∀ x ∈ r, x ≤ w) ∧ ((∀ c ∈ cs, 0 < c) → ∀ x ∈ r, 0 < x) := divideToWidth_spec h
 
 example : divideToWidth [10, 3, 7] 4 = some [3, 3, 4, 3, 3, 4] := by rfl
 
@@ -140,6 +117,51 @@ theorem merge_homogeneous_spec {w n M : Nat} {r : List Nat} (h : mergeHomogeneou
     r.length = M ∧ sum r = n * w ∧ (M ≤ n → ∀ x ∈ r, 0 < x) := mergeHomogeneous_spec h
 
 example : mergeHomogeneous 2 5 2 = some [6, 4] := by rfl
+
+/-- **merge_to_number_spec** (all three paths, the heap path with its lazy deletion included): on positive chunks
+    whatever `merge_to_number` returns has the same total and only positive chunks; it has exactly `max_number`
+    chunks when there were more, and is the input itself otherwise.  (Invariant of the `while nmerges > 0` loop:
+    every heap entry `(w, i, j)` has `i < j`; a merge keeps the sum and removes exactly one live chunk.
+    Raising - `heappop` from an empty heap, `chunks[j]` past the end, the `assert` - is modelled as an error, so is
+    running out of the model's fuel; that neither happens is validated by the function-level diff.) -/
+theorem merge_to_number_spec {cs r : List Nat} {M : Nat} (h : mergeToNumberFull cs M = .ok r) (hpos : ∀ c ∈ cs, 0 < c) :
+    sum r = sum cs ∧ (∀ x ∈ r, 0 < x) ∧ (M < cs.length → r.length = M) ∧ (cs.length ≤ M → r = cs) :=
+  mergeToNumberFull_spec h hpos
+
+example : mergeToNumberFull [5, 1, 1, 7, 2] 3 = .ok [7, 7, 2] := by rfl
+example : mergeToNumberFull [1, 2, 3, 4, 5, 6] 2 = .ok [15, 6] := by rfl
+example : mergeToNumberFull [3, 3, 3, 3] 0 = .error .raised := by rfl
+
+/-! ## Part 2b: the stage choice of `plan_rechunk` (`find_split_rechunk`, `find_merge_rechunk`, the loop)
+
+The float-dependent part of `find_merge_rechunk` - the order in which the candidate dimensions are tried
+(`sorted(..., key=log(gse)/log(bse))`) - is a *parameter* of the model; the theorems hold for every order (the
+harness feeds the order observed in the real call and diffs every real plan against `planRechunk`). -/
+
+/-- **find_split_valid**: `find_split_rechunk` maps valid chunkings of a shape to a valid chunking of that shape. -/
+theorem find_split_valid {shape : List Nat} {old new r : List (List Nat)} {limit : Nat} (ho : AllStage shape old)
+    (hn : AllStage shape new) (h : findSplit old new limit = .ok r) : AllStage shape r := findSplit_valid ho hn h
+
+/-- **find_merge_valid**: so does `find_merge_rechunk`, whatever the order of its candidates and the byte limit. -/
+theorem find_merge_valid {shape : List Nat} {Lnum den : Nat} {old new c : List (List Nat)} {order : List Nat} {hit : Bool}
+    (ho : AllStage shape old) (hn : AllStage shape new) (h : findMerge Lnum den old new order = .ok (c, hit)) :
+    AllStage shape c := findMerge_valid ho hn h
+
+/-- **plan_rechunk_stages_valid**: every stage of every plan `plan_rechunk` returns is a valid chunking of the
+    array's shape and the last stage is the target - for every threshold, byte limit, item size and candidate
+    order (the hypothesis of `plan_compose`, which was only checked at run time before). -/
+theorem plan_rechunk_stages_valid {shape : List Nat} {old new : List (List Nat)} {itemsize thr limitBytes : Nat}
+    {orders : List (List Nat)} {r : List (List (List Nat))} (ho : AllStage shape old) (hn : AllStage shape new)
+    (h : planRechunk old new itemsize thr limitBytes orders = .ok r) :
+    (∀ s ∈ r, AllStage shape s) ∧ r.getLast? = some new := planRechunk_valid ho hn h
+
+/-- non-vacuity: a transposition-like 3-d rechunk under a tight limit (30 elements, threshold 2) is planned in three
+    stages - a merge pass, then a split+merge pass - exactly as the real `plan_rechunk` does (observed orders
+    `[2] [2] [2, 0]`), and the hypotheses hold for it -/
+example : planRechunk [[4], [5, 5], [1, 1, 1, 1, 1]] [[1, 1, 1, 1], [6, 1, 1, 1, 1], [5]] 1 2 30 [[2], [2], [2, 0]] =
+    .ok [[[2, 2], [5, 5], [2, 3]], [[1, 1, 1, 1], [5, 5], [5]], [[1, 1, 1, 1], [6, 1, 1, 1, 1], [5]]] := by rfl
+example : AllStage [4, 10, 5] [[4], [5, 5], [1, 1, 1, 1, 1]] ∧ AllStage [4, 10, 5] [[1, 1, 1, 1], [6, 1, 1, 1, 1], [5]] := by
+  simp [AllStage, StageOK, sum]
 
 /-! ## Part 3: rechunk — `_breakpoints` / `_intersect_1d` / `old_to_new`, `_compute_rechunk`, multi-stage plans
 
@@ -181,8 +203,8 @@ example : intersect1d [10, 10, 10, 10, 10] [25, 5, 20] =
     some [[⟨0, 0, 10⟩, ⟨1, 0, 10⟩, ⟨2, 0, 5⟩], [⟨2, 5, 10⟩], [⟨3, 0, 10⟩, ⟨4, 0, 10⟩]] := by
   simp [intersect1d, cumsum0, cumsumFrom, merge, loop, step, finish]
 
-/-- a chunking the planner may use as a stage: non-empty, positive, of the array's length -/
-def StageOK (n : Nat) (cs : List Nat) : Prop := cs ≠ [] ∧ (∀ c ∈ cs, 0 < c) ∧ sum cs = n
+/- `StageOK n cs` (Lemmas/ChunksPlanLemmas.lean): a chunking the planner may use as a stage - non-empty, positive,
+   of the axis' length `n`.  `AllStage shape chunks` (Lemmas/ChunksPlanStages.lean): one such chunking per dimension. -/
 
 /-- **plan_compose**: whatever intermediate stages `plan_rechunk` chooses — as long as each is a valid chunking
     of the axis, which harness/props/c23.py checks on every real plan — executing the stages one after the other
@@ -202,5 +224,74 @@ theorem plan_compose {α} (xs : List α) : ∀ (cur : List Nat) (stages : List (
 
 example : runPlan [1, 1, 1, 1] (splitBy [1, 1, 1, 1] [5, 6, 7, 8]) [[2, 2], [3, 1], [4]] = some [[5, 6, 7, 8]] := by
   simp [runPlan, intersect1d, cumsum0, cumsumFrom, merge, loop, step, finish, applyPlan, splitBy]
+
+/-- **plan_rechunk_exact**: executing the stages of the *modelled* `plan_rechunk` one after the other
+    (`for c in steps: x = _compute_rechunk(x, c)`) along any axis `d` ends with exactly the requested chunks over the
+    unchanged data - no hypothesis on the stages any more (they are valid by `plan_rechunk_stages_valid`). -/
+theorem plan_rechunk_exact {α} {shape : List Nat} {old new : List (List Nat)} {itemsize thr limitBytes : Nat}
+    {orders : List (List Nat)} {r : List (List (List Nat))} (ho : AllStage shape old) (hn : AllStage shape new)
+    (h : planRechunk old new itemsize thr limitBytes orders = .ok r) (d n : Nat) (hd : shape[d]? = some n)
+    (xs : List α) (hx : xs.length = n) :
+    runPlan (old.getD d []) (splitBy (old.getD d []) xs) (r.map (·.getD d [])) = some (splitBy (new.getD d []) xs) := by
+  obtain ⟨hs, hl⟩ := planRechunk_valid ho hn h
+  obtain ⟨ini, rfl⟩ := List.getLast?_eq_some_iff.1 hl
+  have hc : StageOK xs.length (old.getD d []) := hx ▸ AllStage.getD ho hd
+  have hst : ∀ s ∈ (ini ++ [new]).map (·.getD d []), StageOK xs.length s := by
+    intro s hs'
+    obtain ⟨st, hm, rfl⟩ := List.mem_map.1 hs'
+    exact hx ▸ AllStage.getD (hs st hm) hd
+  rw [plan_compose xs _ _ hc hst]
+  congr 2
+  simp only [List.map_append, List.map_cons, List.map_nil]
+  rw [List.getLast_cons (by simp)]; simp
+
+/-! ## Part 4: element level, and n-d rechunk as the product of the per-axis plans
+
+`planLocate plan j q` walks the pieces of new block `j` to the `(old block, offset)` its element `q` is read from.
+`ndLocate` does that on every axis (`intersect_chunks` is the product of the per-axis plans; `getitem` with a tuple
+of slices and `concatenate_shaped` act axis by axis - NumPy semantics, trusted and validated at API level).
+`gidx chunks [(block, offset), …]` is the global index of an element. -/
+
+/-- **rechunk_locate**: for positive chunkings of equal length, element `q` of new block `j` is read from inside an
+    existing old block, at the same global position. -/
+theorem rechunk_locate {old new : List Nat} (hpo : ∀ c ∈ old, 0 < c) (hpn : ∀ c ∈ new, 0 < c)
+    (hsum : sum old = sum new) (hne : old ≠ []) :
+    ∃ plan, intersect1d old new = some plan ∧ ∀ j q m, new[j]? = some m → q < m →
+      ∃ i r c, planLocate plan j q = some (i, r) ∧ old[i]? = some c ∧ r < c ∧
+        blockStart old i + r = blockStart new j + q := by
+  obtain ⟨plan, h1, h2⟩ := intersect1d_good hpo hpn hsum hne
+  refine ⟨plan, h1, ?_⟩
+  intro j q m hj hq
+  obtain ⟨i, r, c, a1, a2, a3, a4⟩ := planLocate_good new plan 0 j q m h2 hj hq
+  exact ⟨i, r, c, a1, a2, a3, by omega⟩
+
+example : (intersect1d [2, 2, 1] [2, 3]).map (fun p => planLocate p 1 2) = some (some (2, 0)) := by
+  simp [intersect1d, cumsum0, cumsumFrom, merge, loop, step, finish, planLocate, locateIn]
+
+/-- **rechunk_nd_exact**: for valid chunkings `olds`, `news` of one shape (any number of dimensions) `old_to_new`
+    returns one plan per axis, and every element `(new block, offset)` of the rechunked array is read from an
+    existing element of an old block with the *same global index* on every axis. -/
+theorem rechunk_nd_exact {shape : List Nat} {olds news : List (List Nat)} (ho : AllStage shape olds)
+    (hn : AllStage shape news) :
+    ∃ plans, oldToNew olds news = some plans ∧ ∀ jqs, InBlock news jqs →
+      ∃ irs, ndLocate plans jqs = some irs ∧ InBlock olds irs ∧ gidx olds irs = gidx news jqs := by
+  obtain ⟨plans, h1, h2⟩ := oldToNew_plansFor shape olds news ho hn
+  exact ⟨plans, h1, fun jqs hb => ndLocate_spec shape olds news plans jqs ho hn h2 hb⟩
+
+/-- **rechunk_nd_values** (the statement's "exactly the requested chunks and unchanged values", n-d): view an array
+    as a function of the global index; the blocks of a chunking hold `x (gidx chunks ·)`.  The element the rechunk
+    graph puts at offset `qs` of new block `js` is the element of `x` that the *new* chunking has there. -/
+theorem rechunk_nd_values {α} (x : List Nat → α) {shape : List Nat} {olds news : List (List Nat)}
+    (ho : AllStage shape olds) (hn : AllStage shape news) :
+    ∃ plans, oldToNew olds news = some plans ∧ ∀ jqs, InBlock news jqs →
+      ∃ irs, ndLocate plans jqs = some irs ∧ InBlock olds irs ∧ x (gidx olds irs) = x (gidx news jqs) := by
+  obtain ⟨plans, h1, h2⟩ := rechunk_nd_exact ho hn
+  refine ⟨plans, h1, fun jqs hb => ?_⟩
+  obtain ⟨irs, a1, a2, a3⟩ := h2 jqs hb
+  exact ⟨irs, a1, a2, by rw [a3]⟩
+
+example : (oldToNew [[2, 2], [3]] [[1, 3], [1, 2]]).map (fun p => ndLocate p [(1, 2), (1, 1)]) = some (some [(1, 1), (0, 2)]) := by
+  simp [oldToNew, intersect1d, cumsum0, cumsumFrom, merge, loop, step, finish, ndLocate, planLocate, locateIn]
+example : gidx [[2, 2], [3]] [(1, 1), (0, 2)] = gidx [[1, 3], [1, 2]] [(1, 2), (1, 1)] := by decide
 
 end Dask.C23
